@@ -30,6 +30,7 @@ TRUSTED_BASE = [
 # ---------------------------------------------------------------------------------------------------
 PROPS = {
     'C03': dict(streams=['scale', 'conv']),
+    'C06': dict(streams=['midix', 'write']),
     'C13': dict(streams=['scale', 'diatonic']),
     'C14': dict(streams=['chain']),
     'C15': dict(streams=['note', 'describe']),
